@@ -102,16 +102,15 @@ static inline void checkQueueIsFull(Pool& pool, uint32_t size) {
 
 // after ~ResourcePool
 static inline void checkAllDestroyedOnce(uint32_t size) {
+  // (no if/else around the checks: LLVM would merge two vf_check calls into one with a phi label)
 #pragma unroll
   for (uint32_t i = 0; i < kMaxRes; ++i) {
-    if (i < size) {
-      vf_check(g_made[i] == 1, "the init functor's result is constructed into the pool exactly once per resource");
-      vf_check(g_killed[i] >= 1, "a resource was not destroyed by ~ResourcePool (leak)");
-      vf_check(g_killed[i] <= 1, "a resource was destroyed more than once");
-      vf_check(g_alive[i] == 0, "a resource outlives the pool");
-    } else {
-      vf_check(g_made[i] == 0, "the pool constructed more resources than its size");
-    }
+    const bool in = i < size;
+    vf_check(!in || g_made[i] == 1, "the init functor's result is constructed into the pool exactly once per resource");
+    vf_check(!in || g_killed[i] >= 1, "a resource was not destroyed by ~ResourcePool (leak)");
+    vf_check(!in || g_killed[i] <= 1, "a resource was destroyed more than once");
+    vf_check(!in || g_alive[i] == 0, "a resource outlives the pool");
+    vf_check(in || g_made[i] == 0, "the pool constructed more resources than its size");
   }
   vf_check(g_objs == 0, "every resource object (temporaries included) is destroyed exactly once");
 }
